@@ -21,6 +21,17 @@ func (mergeOp) FullMerge(key, existing []byte, operands [][]byte) ([]byte, bool)
 }
 func (mergeOp) PartialMerge(key, l, r []byte) ([]byte, bool) { return nil, false }
 
+// failingMergeOp refuses to merge keys of the "m/" family (C16: a merger whose
+// cycles fail must still answer notifications and stop at Close).
+type failingMergeOp struct{ mergeOp }
+
+func (failingMergeOp) FullMerge(key, existing []byte, operands [][]byte) ([]byte, bool) {
+	if len(key) >= 2 && key[0] == 'm' && key[1] == '/' {
+		return nil, false
+	}
+	return mergeOp{}.FullMerge(key, existing, operands)
+}
+
 // dumpSnapshot reads the full content of a snapshot by iteration (recursively
 // through child collections).
 func dumpSnapshot(ss moss.Snapshot) (*Node, error) {
